@@ -1,7 +1,7 @@
 (* Spec/LegacySighash.v — the original Bitcoin signature-hash serialisation (`SignatureHash` with
    `CTransactionSignatureSerializer` of the reference client), written from that algorithm on the
    wire-level view.  The script code is given as its flat element sequence (Spec/ScriptTok.tok). *)
-From BSV Require Import Base.Hex Spec.ScriptTok Spec.SighashWire.
+From BSV Require Import Base.Hex Model.Script Spec.ScriptTok Spec.SighashWire.
 
 (* SerializeScriptCode: every OP_CODESEPARATOR (0xab as an opcode, not inside push data) is skipped,
    all other elements are written unchanged and in order *)
@@ -34,3 +34,16 @@ Definition legacy_preimage (t : wtx) (n_in : nat) (ht : N) (script_code : list t
         mapi (fun k o => if Nat.eqb k n_in then o else null_out) (firstn (S n_in) (w_outs t))
       else w_outs t in
     Some (ser_tx (mk_wtx (w_version t) ins outs (w_lock t)) ++ u32le ht).
+
+(* "no separator remains anywhere": no element of the script, at any nesting depth, is the opcode
+   OP_CODESEPARATOR (stated on the library's script value, for the codesep_removed theorem) *)
+Fixpoint no_separator_bit (b : bit) : bool :=
+  let fix no_separator (l : list bit) : bool :=
+    match l with [] => true | x :: r => no_separator_bit x && no_separator r end in
+  match b with
+  | BOp c => negb (c =? 171)%N
+  | BIf _ p q => no_separator p && match q with None => true | Some q' => no_separator q' end
+  | _ => true
+  end.
+Fixpoint no_separator_bits (l : list bit) : bool :=
+  match l with [] => true | x :: r => no_separator_bit x && no_separator_bits r end.
